@@ -103,7 +103,7 @@ Record env := mkEnv {
   e_tret : N;            (* the call returned no later *)
   e_interval : N;
   e_margin : N;
-  e_exhausted : bool;    (* every node whose connection is not cut was handed out *)
+  e_exhausted : bool;    (* every node whose connection is not cut got a frame: the plan is used up *)
   e_co : option N        (* coordinator named by the result, when the API exposes it *)
 }.
 
@@ -125,6 +125,7 @@ Definition complete_ok (e : env) (f : nat) (out : Spec.fiber_out) : bool :=
   match nth_error (e_fis e) f with
   | Some fi =>
       fi_finished fi
+      && (match out with None => e_exhausted e | Some _ => true end)
       && match fi_res fi with
          | Some r => if Spec.fiber_out_eq_dec out (conv_result f r) then true else false
          | None => false
@@ -227,7 +228,7 @@ Definition mk_env (p : policy) (idem : bool) (cl0 : consistency) (nodes down : l
            (interval : N) (cs : list cert) (assign : list nat) (frs : list frame)
            (t0 tret margin : N) (co : option N) : env :=
   mkEnv (finfos p idem cl0 down cs assign frs) t0 tret interval margin
-        (plan_covers nodes down (concat (map c_plan cs))) co.
+        (nodes_covered nodes down frs) co.
 
 (* gate open *)
 Definition check_spec (p : policy) (idem : bool) (cl0 : consistency) (nodes down : list N)
@@ -235,6 +236,7 @@ Definition check_spec (p : policy) (idem : bool) (cl0 : consistency) (nodes down
            (ls : list Spec.label) (t0 tret margin : N) (o : ores) (co : option N) : bool :=
   let e := mk_env p idem cl0 nodes down interval cs assign frs t0 tret margin co in
   multi_ok p idem cl0 nodes down max cs assign frs
+  && nodupb nodes
   && overlap_ok (1 + max) frs
   && starts_ok e
   && walk e (Spec.init max) ls []
@@ -277,7 +279,8 @@ Definition prop_overlap (idem : bool) (spec : option nat) (frs : list frame) : b
    frames.  An answer is REAL when it ends its fiber with a result `execute` returns at once: a
    success, or an error that no built-in retry policy retries and that is not ignorable
    (final_definitive, see Proofs/E2ESpec_proofs.v final_definitive_spec).  A frame WINS when its
-   answer is what the caller got (for a success: on the node the result names as coordinator).
+   answer is what the caller got (rows: on the node the result names as coordinator; an error: the
+   same error variant; a void result -- BATCH, ignored write error -- names no frame).
    The property fails when some real answer was logged more than [margin] before EVERY winning
    answer: the call returned a later answer although an earlier real one was there.  (Nothing is
    said when no frame wins: ignored write errors, pool errors.) *)
@@ -291,8 +294,8 @@ Definition real_ans (a : answer) : bool :=
   match a with AnsOk => true | AnsErr e => final_definitive e | AnsNone => false end.
 Definition wins (o : ores) (co : option N) (f : frame) : bool :=
   match o, f_ans f with
-  | OCompleted, AnsOk | OOk, AnsOk => match co with Some c => c =? f_node f | None => true end
-  | OFailed (LAttempt e), AnsErr e' => if attempt_error_eq_dec e e' then true else false
+  | OCompleted, AnsOk => match co with Some c => c =? f_node f | None => true end
+  | OFailed (LAttempt e), AnsErr e' => if Spec.attempt_error_eq_dec (conv_err e) (conv_err e') then true else false
   | _, _ => false
   end.
 Definition prop_first_real (margin : N) (o : ores) (co : option N) (frs : list frame) : bool :=
